@@ -1,7 +1,6 @@
 //! C05 (prefilters are transparent) and C10 (span == sub-slice; bytes
 //! outside the span are irrelevant).
 
-use aho_corasick::packed;
 use aho_corasick::Span;
 use proptest::prelude::*;
 use proptest::strategy::{BoxedStrategy, Union};
@@ -229,10 +228,25 @@ fn c10_check(case: &Case, ctx: &mut Ctx) -> Result<(), String> {
 
     // packed::Searcher::find_in (start <= end there)
     let mut packed_checked = false;
-    if s0 <= e0 && !case.patterns.is_empty() && case.patterns.len() <= 128 && case.patterns.iter().all(|p| !p.is_empty()) && !cfg.casei {
+    // the pattern list as given, and the sub-list of patterns of >= 4 bytes
+    // (selects the 4-byte Teddy masks); every forced algorithm variant
+    let long_only: Vec<Vec<u8>> = case.patterns.iter().filter(|p| p.len() >= 4).cloned().collect();
+    let mut lists: Vec<&Vec<Vec<u8>>> = vec![&case.patterns];
+    if !long_only.is_empty() && long_only.len() < case.patterns.len() {
+        lists.push(&long_only);
+    }
+    let variant = [
+        crate::case::PackedVariant::Default,
+        crate::case::PackedVariant::Fat256,
+        crate::case::PackedVariant::Slim128,
+        crate::case::PackedVariant::Slim256,
+        crate::case::PackedVariant::RabinKarp,
+    ][(case.haystack.len() + case.patterns.len()) % 5];
+    for plist in lists {
+      if s0 <= e0 && !plist.is_empty() && plist.len() <= 128 && plist.iter().all(|p| !p.is_empty()) && !cfg.casei {
         for ll in [false, true] {
-            let kind = if ll { packed::MatchKind::LeftmostLongest } else { packed::MatchKind::LeftmostFirst };
-            let built = guard(|| packed::Config::new().match_kind(kind).builder().extend(case.patterns.iter()).build()).map_err(|p| format!("packed build panicked: {}", p))?;
+            let pc = crate::case::PackedCfg { variant, leftmost_longest: ll, heuristic_limits: false };
+            let built = crate::props::packed::build_packed(&pc, plist)?;
             if let Some(ps) = built {
                 packed_checked = true;
                 let span = Span { start: s0, end: e0 };
@@ -252,13 +266,64 @@ fn c10_check(case: &Case, ctx: &mut Ctx) -> Result<(), String> {
                     return Err(format!("packed R2 (leftmost_longest={}): find_in {:?} changed to {:?} after rewriting outside bytes", ll, a, c));
                 }
                 let mk = if ll { Mk::LeftmostLongest } else { Mk::LeftmostFirst };
-                let occ2 = Occ::new(&case.patterns, hay, false);
+                let occ2 = Occ::new(plist, hay, false);
                 let mf = occ2.find(mk, s0, e0, false);
                 if a != mf {
-                    return Err(format!("packed model (leftmost_longest={}): find_in {:?} vs model {:?}", ll, a, mf));
+                    return Err(format!("packed model ({:?}, leftmost_longest={}): find_in {:?} vs model {:?}", variant, ll, a, mf));
                 }
             }
         }
+      }
+    }
+    // R5: every way of establishing the same span on an Input is equivalent
+    if s0 <= e0 {
+        use aho_corasick::Input;
+        let want = aho_corasick::Span { start: s0, end: e0 };
+        let mut routes: Vec<(&str, Input)> = vec![
+            ("range(s..e)", Input::new(hay).range(s0..e0)),
+            ("set_span", {
+                let mut i = Input::new(hay);
+                i.set_span(want);
+                i
+            }),
+            ("set_end then set_start", {
+                let mut i = Input::new(hay);
+                i.set_end(e0);
+                i.set_start(s0);
+                i
+            }),
+            ("set_range(s..e) after narrowing", {
+                let mut i = Input::new(hay).span(aho_corasick::Span { start: s0, end: s0 });
+                i.set_range(s0..e0);
+                i
+            }),
+        ];
+        if e0 == hay.len() {
+            routes.push(("span(0..s) then range(s..)", Input::new(hay).span(aho_corasick::Span { start: 0, end: s0 }).range(s0..)));
+            routes.push(("set_end(s) then set_range(s..)", {
+                let mut i = Input::new(hay);
+                i.set_end(s0);
+                i.set_range(s0..);
+                i
+            }));
+        }
+        if s0 == 0 {
+            routes.push(("span(e..e) then range(..e)", Input::new(hay).span(aho_corasick::Span { start: e0, end: e0 }).range(..e0)));
+        }
+        if e0 > s0 {
+            routes.push(("range(s..=e-1)", Input::new(hay).range(s0..=e0 - 1)));
+        }
+        for (name, inp) in routes {
+            let got = guard(|| inp.get_span()).map_err(|p| format!("R5: building the input via {} panicked: {}", name, p))?;
+            if got != want {
+                return Err(format!("R5: input built via {} has span {:?}, expected {:?}", name, got, want));
+            }
+            let r = guard(|| s.try_find(inp.clone().anchored(crate::engine::anch(anchored)))).map_err(|p| format!("R5: find via {} panicked: {}", name, p))?.map_err(|e| format!("R5: find via {}: Err({})", name, e))?;
+            if r != full.find {
+                return Err(format!("R5: find on the input built via {} gives {:?}, via span() {:?}", name, r, full.find));
+            }
+        }
+        ctx.class("input-routes-checked");
     }
     if packed_checked {
         ctx.class("packed-find_in-checked");
@@ -357,7 +422,7 @@ pub const C10: PropDef = PropDef {
     id: "C10",
     rule: "metamorphic relations on generated (config, patterns, haystack, span, anchoring), all 7 engines, every prefilter shape: \
 R1 search(h, s..e) == shift(search(h[s..e]), s) for find / earliest / iter / overlapping steps / is_match; R2 rewriting the bytes outside s..e (with generated content, incl. the missing prefix/suffix of a pattern that the inside starts/ends with, so that a match would complete across the boundary) leaves every result unchanged; \
-R3 every reported match lies inside the span; R4 start = end+1 yields nothing; the same for packed::Searcher::find_in in both match kinds; span find is cross-checked with the model. \
+R3 every reported match lies inside the span; R4 start = end+1 yields nothing; R5 every way of establishing the same span on an Input (span, range, set_span, set_start/set_end, open-ended set_range after narrowing) gives the same span and result; R1-R3 also for packed::Searcher::find_in in both match kinds, each forced algorithm variant, on the pattern list and on its sub-list of patterns >= 4 bytes; span find is cross-checked with the model. \
 Non-trivial = 0 < start, end < len, and an occurrence straddles a span boundary in the original or rewritten haystack. Distinct = distinct case fingerprint.",
     assumptions: &["searches are deterministic functions of (searcher, haystack bytes, span), so earliest-mode results are compared by equality too"],
     cases_quick: 200_000,
